@@ -140,7 +140,7 @@ def run_case(case):
         for meth in OPT_METHODS:
             if meth in cls.__dict__:
                 specs.append((cls, meth, mk(cls, meth)))
-    with pipeline.monitors(specs):
+    with pipeline.monitors(specs), s3.torsion_drive(case, info):
         r = pipeline.run(text, opts)
     ev = res["events"]
     if not r.ok:
